@@ -248,11 +248,21 @@ pub fn build(prop: &str, seed: u64, tier: &str, corp: &Corpus) -> Result<PathBuf
         let err = String::from_utf8_lossy(&out.stderr).to_string();
         // which programs does rustc reject?
         let mut bad = BTreeSet::new();
+        let mut in_error = false;
         for line in err.lines() {
+            if line.starts_with("error") {
+                in_error = true;
+            } else if line.starts_with("warning") {
+                in_error = false;
+            }
+            if !in_error {
+                continue;
+            }
             if let Some(pos) = line.find("/src/p") {
                 let rest = &line[pos + 5..];
                 let name: String = rest.chars().take_while(|c| c.is_ascii_alphanumeric()).collect();
-                if line.trim_start().starts_with("-->") && name.len() > 1 {
+                let is_prog = name.len() > 1 && name.starts_with('p') && name[1..].chars().all(|c| c.is_ascii_digit());
+                if line.trim_start().starts_with("-->") && is_prog {
                     bad.insert(name);
                 }
             }
